@@ -28,3 +28,13 @@ SPEC_ENTRY = {'title': 'Each buffer is shared with the device once and unshared 
               ('C04_noalloc_ledger', 'Proofs/QueueNoAllocProofs.v', 'na_ledger_balanced', 'alloc-less build: shares = unshares + live shares as multisets, the live shares are caller buffers only, no event of any history concerns a table'),
               ('C04_noalloc_no_share_on_refusal', 'Proofs/QueueNoAllocProofs.v', 'na_add_refusals', None),
               ('C04_noalloc_pop_events', 'Proofs/QueueNoAllocProofs.v', 'na_pop_refines', 'the unshares of a chain happen inside the alloc-less pop_used that consumes it: one per buffer, none for a table')]}
+
+# ---- the monitors evaluated on the IMPLEMENTATION's observations, tied to the statements they stand for (Proofs/QueueMonProofs.v):
+# ---- "meaning" = what a true verdict implies, for any input list; "holds_of_model" = no false alarm on code that behaves like the model
+SPEC_ENTRY['imports'] += [m for m in ['Extract.QueueMon', 'Proofs.QueueMonProofs'] if m not in SPEC_ENTRY['imports']]
+SPEC_ENTRY['theorems'] += [
+  ('C04_monitor_152_meaning', 'Proofs/QueueMonProofs.v', 'mon_data_sound', 'monitor 152, ANY accepted list: after a successful pop the chain had been completed by the device and every writable buffer holds exactly the bytes the device wrote; after an unsuccessful one every writable buffer is untouched'),
+  ('C04_monitor_152_meaning_line', 'Proofs/QueueMonProofs.v', 'mon_data_sound_line', 'the same for a line as the harness writes it'),
+  ('C04_monitor_167_meaning', 'Proofs/QueueMonProofs.v', 'mon167_sound', 'monitor 167: the refusal of add_notify_wait_pop is WrongToken, its buffers were shared once and stay shared until their own completion is consumed, which unshares each exactly once'),
+  ('C04_monitor_154_meaning', 'Proofs/QueueMonProofs.v', 'mon154_sound', 'monitor 154: at the end of a history the live shares are the buffers and tables of the outstanding chains'),
+]
